@@ -39,6 +39,9 @@ pub enum Workload {
     Datagrams(usize),
     /// handshake, one small echo, then no application activity: wait for termination
     Idle,
+    /// three small echoes one virtual second apart (a long-lived connection whose
+    /// duplicate-detection window keeps moving)
+    Spaced,
 }
 
 #[derive(Debug, Clone, Copy, PartialEq, Eq, Serialize, Deserialize)]
@@ -102,6 +105,7 @@ pub struct Outcome {
     pub events: Vec<String>,
     pub event_problems: Vec<String>,
     pub pn_problems: Vec<String>,
+    pub replay_problems: Vec<String>,
     pub packets_logged: u64,
     /// virtual ms at which each side observed termination (Idle workload)
     pub terminated_ms: Vec<(String, u64)>,
@@ -223,12 +227,23 @@ pub fn run_once(cfg: &RunCfg, prefix: &[Fate], tail: Tail) -> Outcome {
     for (who, sk) in [("client", &sink), ("server", &sink_srv)] {
         let events = std::mem::take(&mut *sk.events.lock().unwrap());
         let mut last_pn: std::collections::BTreeMap<String, u64> = Default::default();
+        let mut rcvd_seen: std::collections::BTreeSet<(String, u64)> = Default::default();
         for ev in &events {
             let v = serde_json::to_value(ev).unwrap_or(serde_json::Value::Null);
             let name = v.get("name").and_then(|n| n.as_str()).unwrap_or("<unserialisable>").to_string();
             out.events.push(format!("{who}:{name}"));
             if let Some(p) = check_event(ev) {
                 out.event_problems.push(format!("{name}: {p}"));
+            }
+            // C02: a packet (space, pn) is accepted at most once — a replayed or duplicated packet
+            // must not produce a second packet_received
+            if name.ends_with("packet_received") {
+                let h = &v["data"]["header"];
+                if let (Some(ty), Some(pn)) = (h["packet_type"].as_str(), h["packet_number"].as_u64()) {
+                    if !rcvd_seen.insert((ty.to_string(), pn)) {
+                        out.replay_problems.push(format!("{who}: {ty} packet number {pn} accepted twice"));
+                    }
+                }
             }
             // C07c: packet numbers strictly increase per (endpoint, space)
             if name.ends_with("packet_sent") {
@@ -447,6 +462,7 @@ async fn drive(cfg: RunCfg, prefix: Vec<Fate>, tail: Tail, sink: Arc<Captured>, 
         events: Vec::new(),
         event_problems: Vec::new(),
         pn_problems: Vec::new(),
+        replay_problems: Vec::new(),
         packets_logged: 0,
         terminated_ms: term.lock().unwrap().clone(),
     }
@@ -454,7 +470,7 @@ async fn drive(cfg: RunCfg, prefix: Vec<Fate>, tail: Tail, sink: Arc<Captured>, 
 
 async fn serve(conn: Connection, workload: Workload, log: Arc<Mutex<Vec<String>>>) {
     match workload {
-        Workload::Echo(_) | Workload::TwoStreams(_) | Workload::Idle => {
+        Workload::Echo(_) | Workload::TwoStreams(_) | Workload::Idle | Workload::Spaced => {
             let mut n = 0;
             while let Ok((_sid, (mut reader, mut writer))) = conn.accept_bi_stream().await {
                 let log = log.clone();
@@ -591,6 +607,13 @@ async fn run_client(conn: Connection, workload: Workload, log: Arc<Mutex<Vec<Str
             let (a, b) = tokio::join!(send, recv);
             log.lock().unwrap().push(a);
             log.lock().unwrap().push(b);
+        }
+        Workload::Spaced => {
+            for i in 0..3u8 {
+                let r = echo_one(&conn, i, 200).await;
+                log.lock().unwrap().push(r);
+                tokio::time::sleep(Duration::from_millis(1000)).await;
+            }
         }
         Workload::Idle => {
             let r = echo_one(&conn, 1, 100).await;
